@@ -52,10 +52,11 @@ type fileSpec struct {
 	Dir  bool   `json:"dir,omitempty"`
 	// Content length: for fs-local the file holds Size bytes; for fs-mem Size
 	// is what the backend reports.
-	Size    int64  `json:"size,omitempty"`
-	MIME    string `json:"mime,omitempty"`     // fs-mem only
-	ETag    string `json:"etag,omitempty"`     // fs-mem only
-	ModUnix int64  `json:"mod_unix,omitempty"` // 0 = zero time (fs-mem); fs-local: always set
+	Size int64  `json:"size,omitempty"`
+	MIME string `json:"mime,omitempty"` // fs-mem only
+	ETag string `json:"etag,omitempty"` // fs-mem only
+	// the modification time (fs-local: a file always has one)
+	modSpec
 	// Slash: the in-memory backend reports this collection with a trailing
 	// slash (fs-mem only).
 	Slash bool `json:"slash,omitempty"`
@@ -64,6 +65,81 @@ type fileSpec struct {
 	Link     string `json:"link,omitempty"`
 	LinkKind string `json:"link_kind,omitempty"`
 }
+
+// modSpec is the modification time a backend reports for a resource. The
+// resource has one unless the backend reports the zero time.Time; every other
+// instant - before, at and after the Unix epoch, in any zone, with or without
+// a sub-second part or a monotonic clock reading - is a modification time.
+type modSpec struct {
+	// ModUnix: seconds since the Unix epoch. ModUnix == 0 without ModSet is
+	// "no modification time" (the zero time.Time).
+	ModUnix int64 `json:"mod_unix,omitempty"`
+	// ModSet: ModUnix is the modification time even when it is 0.
+	ModSet bool `json:"mod_set,omitempty"`
+	// ModNsec: sub-second part, 0 <= ModNsec < 1e9.
+	ModNsec int64 `json:"mod_nsec,omitempty"`
+	// ModZone: the backend reports the time in a zone this many seconds east
+	// of UTC (doubles only; a file system reports local time).
+	ModZone int `json:"mod_zone,omitempty"`
+	// ModMono: the reported time.Time carries a monotonic clock reading, as
+	// every time derived from time.Now() does (doubles only).
+	ModMono bool `json:"mod_mono,omitempty"`
+}
+
+// has: the backend reports a modification time.
+func (m modSpec) has() bool { return m.ModSet || m.ModUnix != 0 }
+
+// instant is the time.Time the double reports.
+func (m modSpec) instant() time.Time {
+	var t time.Time
+	if m.has() {
+		t = time.Unix(m.ModUnix, m.ModNsec)
+	}
+	if m.ModZone != 0 {
+		t = t.In(time.FixedZone("", m.ModZone))
+	}
+	if m.ModMono && m.has() {
+		// The same instant with a monotonic reading: derived from the clock by
+		// Add. The clock only lends the reading, the instant is m's.
+		now := time.Now()
+		if u := now.Add(t.Sub(now)); u.Equal(t) && u.Unix() == t.Unix() && u.Nanosecond() == t.Nanosecond() {
+			t = u
+		}
+	}
+	return t
+}
+
+// class abstracts the time for the evidence tables.
+func (m modSpec) class() string {
+	var c string
+	switch {
+	case !m.has():
+		c = "none(zero time.Time)"
+	case m.ModUnix == 0:
+		c = "unix-epoch"
+	case m.ModUnix < 0:
+		c = "before-1970"
+	case m.ModUnix >= 1<<31:
+		c = "after-2038"
+	case m.ModUnix < 1000000000:
+		c = "1970..2001"
+	default:
+		c = "2001..2038"
+	}
+	if m.ModNsec != 0 {
+		c += " +nsec"
+	}
+	if m.ModZone != 0 {
+		c += " +zone"
+	}
+	if m.ModMono {
+		c += " +monotonic"
+	}
+	return c
+}
+
+// lastModified is the value getlastmodified owes (an HTTP-date, whole seconds, GMT).
+func (m modSpec) lastModified() string { return httpDate(m.ModUnix) }
 
 type collSpec struct {
 	Path    string   `json:"path"`
@@ -74,10 +150,10 @@ type collSpec struct {
 }
 
 type objSpec struct {
-	Path    string `json:"path"`
-	ETag    string `json:"etag,omitempty"`
-	ModUnix int64  `json:"mod_unix,omitempty"`
-	Len     int64  `json:"len,omitempty"`
+	Path string `json:"path"`
+	ETag string `json:"etag,omitempty"`
+	modSpec
+	Len int64 `json:"len,omitempty"`
 	// Unenc != 0: the backend holds a calendar the iCalendar encoder refuses
 	// (1: VEVENT without DTSTAMP, 2: VCALENDAR without PRODID). The value of
 	// calendar-data cannot be produced for it: 200 and 5xx are both left open
@@ -137,6 +213,10 @@ type resource struct {
 	// Required: properties the resource has according to the double's content
 	// (a lower bound of what propname must list), with their expected values.
 	Required map[string]valueCheck
+	// Values: properties whose presence the model does not demand (whether a
+	// server exposes them through PROPFIND is its choice) but whose value, when
+	// answered under 200, is determined by the double's content.
+	Values map[string]valueCheck
 	// Link: a symbolic link. It is a directory entry of its collection and so
 	// in scope as a member, but how it is described (file or collection,
 	// which properties and values) is left open: no reference is taken.
@@ -168,6 +248,9 @@ type env struct {
 	refs    map[int]*reference
 	cleanup func()
 	addr    string // TCP address of the wire server, started on demand
+	// modOff (fs-local): files whose modification time the file system did not
+	// store as specified (out of its range): only its presence is owed.
+	modOff map[string]bool
 }
 
 func (e *env) close() {
@@ -205,6 +288,54 @@ func typesAre(want ...string) valueCheck {
 		sort.Strings(got)
 		sort.Strings(w)
 		return strings.Join(got, " ") == strings.Join(w, " ") && !n.HasNonSpaceText()
+	}
+}
+
+// compsAre: exactly one CALDAV:comp child per given component name (any order).
+func compsAre(want []string) valueCheck {
+	return func(n *xmltree.Node) bool {
+		var got []string
+		for _, c := range n.Elems() {
+			v, ok := c.Attr("name")
+			if !ok || !c.Is(nsCal, "comp") {
+				return false
+			}
+			got = append(got, v)
+		}
+		w := append([]string(nil), want...)
+		sort.Strings(got)
+		sort.Strings(w)
+		return strings.Join(got, "\x00") == strings.Join(w, "\x00") && !n.HasNonSpaceText()
+	}
+}
+
+// mediaTypeIs: the text is the given media type, parameters aside.
+func mediaTypeIs(want string) valueCheck {
+	return func(n *xmltree.Node) bool {
+		if len(n.Elems()) != 0 {
+			return false
+		}
+		t := n.TextContent()
+		if i := strings.IndexByte(t, ';'); i >= 0 {
+			t = t[:i]
+		}
+		return strings.EqualFold(strings.TrimSpace(t), want)
+	}
+}
+
+// dataOf: the text is the object with the given UID (and no other object's):
+// it holds the line "UID:<uid>".
+func dataOf(uid string) valueCheck {
+	return func(n *xmltree.Node) bool {
+		if len(n.Elems()) != 0 {
+			return false
+		}
+		for _, l := range strings.FieldsFunc(n.TextContent(), func(r rune) bool { return r == '\r' || r == '\n' }) {
+			if l == "UID:"+uid {
+				return true
+			}
+		}
+		return false
 	}
 }
 
@@ -380,8 +511,13 @@ func (e *env) addFileResources(local bool) {
 		} else {
 			r.Required[name(nsDAV, "resourcetype")] = typesAre()
 			r.Required[name(nsDAV, "getcontentlength")] = textIs(strconv.FormatInt(f.Size, 10))
-			if f.ModUnix != 0 {
-				r.Required[name(nsDAV, "getlastmodified")] = textIs(httpDate(f.ModUnix))
+			switch {
+			case local && e.modOff[f.Path]:
+				// the file system could not store the instant: it has a
+				// modification time, which one is its own business
+				r.Required[name(nsDAV, "getlastmodified")] = nil
+			case local || f.has():
+				r.Required[name(nsDAV, "getlastmodified")] = textIs(f.lastModified())
 			}
 			if local {
 				r.Required[name(nsDAV, "getetag")] = nil
@@ -426,9 +562,15 @@ func (e *env) buildLocal(workDir string) error {
 		if err := os.WriteFile(p, []byte(strings.Repeat("x", int(f.Size))), 0644); err != nil {
 			return err
 		}
-		t := time.Unix(f.ModUnix, 0)
+		t := time.Unix(f.ModUnix, f.ModNsec)
 		if err := os.Chtimes(p, t, t); err != nil {
 			return err
+		}
+		if st, err := os.Lstat(p); err != nil || st.ModTime().Unix() != f.ModUnix {
+			if e.modOff == nil {
+				e.modOff = map[string]bool{}
+			}
+			e.modOff[f.Path] = true
 		}
 	}
 	e.addFileResources(true)
@@ -466,9 +608,7 @@ func (e *env) buildMem() error {
 		if f.Dir && f.Slash {
 			info.Path = f.Path + "/"
 		}
-		if f.ModUnix != 0 {
-			info.ModTime = time.Unix(f.ModUnix, 0)
-		}
+		info.ModTime = f.instant()
 		fs.Put(info, nil)
 	}
 	e.addFileResources(false)
@@ -498,6 +638,9 @@ func ctlText(k int) string {
 	}
 	return "not utf-8: \xff\xfe \xc3"
 }
+
+// objUID is the UID of the i-th object of a CalDAV/CardDAV world.
+func objUID(i int) string { return fmt.Sprintf("uid-%d", i) }
 
 func makeCard(uid string) vcard.Card {
 	c := vcard.Card{}
@@ -558,15 +701,19 @@ func (e *env) buildDav() error {
 		if c.MaxSize > 0 {
 			req[name(ns, "max-resource-size")] = textIs(strconv.FormatInt(c.MaxSize, 10))
 		}
-		collIdx[strings.TrimSuffix(c.Path, "/")] = add(&resource{Path: c.Path, Level: "collection", Parent: hs, Coll: true, Required: req})
+		vals := map[string]valueCheck{}
+		if cal && c.CompSet != nil {
+			vals[name(nsCal, "supported-calendar-component-set")] = compsAre(c.CompSet)
+		}
+		collIdx[strings.TrimSuffix(c.Path, "/")] = add(&resource{Path: c.Path, Level: "collection", Parent: hs, Coll: true, Required: req, Values: vals})
 	}
-	for _, o := range d.Objs {
+	for i, o := range d.Objs {
 		req := map[string]valueCheck{name(nsDAV, "resourcetype"): typesAre()}
 		if o.ETag != "" {
 			req[name(nsDAV, "getetag")] = textIs(`"` + o.ETag + `"`)
 		}
-		if o.ModUnix != 0 {
-			req[name(nsDAV, "getlastmodified")] = textIs(httpDate(o.ModUnix))
+		if o.has() {
+			req[name(nsDAV, "getlastmodified")] = textIs(o.lastModified())
 		}
 		if o.Len > 0 {
 			req[name(nsDAV, "getcontentlength")] = textIs(strconv.FormatInt(o.Len, 10))
@@ -576,6 +723,17 @@ func (e *env) buildDav() error {
 			return fmt.Errorf("object %q outside every collection", o.Path)
 		}
 		rs := &resource{Path: o.Path, Level: "object", Parent: par, Required: req}
+		if cal {
+			rs.Values = map[string]valueCheck{name(nsDAV, "getcontenttype"): mediaTypeIs("text/calendar"), name(nsCal, "calendar-data"): dataOf(objUID(i))}
+		} else {
+			rs.Values = map[string]valueCheck{name(nsDAV, "getcontenttype"): mediaTypeIs("text/vcard"), name(nsCard, "address-data"): dataOf(objUID(i))}
+		}
+		if o.Ctl != 0 || o.Unenc != 0 {
+			// how a text XML cannot carry is represented, and whether the
+			// encoder's refusal is answered at all, is the server's business
+			delete(rs.Values, name(nsCal, "calendar-data"))
+			delete(rs.Values, name(nsCard, "address-data"))
+		}
 		if o.Unenc != 0 {
 			rs.OpenStatus = map[string]bool{name(nsCal, "calendar-data"): true}
 		}
@@ -588,7 +746,7 @@ func (e *env) buildDav() error {
 				MaxResourceSize: c.MaxSize, SupportedComponentSet: c.CompSet})
 		}
 		for i, o := range d.Objs {
-			co := caldav.CalendarObject{Path: o.Path, ETag: o.ETag, ContentLength: o.Len, Data: makeCalendar(fmt.Sprintf("uid-%d", i))}
+			co := caldav.CalendarObject{Path: o.Path, ETag: o.ETag, ContentLength: o.Len, Data: makeCalendar(objUID(i))}
 			if o.Ctl != 0 {
 				co.Data.Children[0].Props.SetText(ical.PropDescription, ctlText(o.Ctl))
 			}
@@ -598,9 +756,7 @@ func (e *env) buildDav() error {
 			case 2:
 				co.Data.Props.Del(ical.PropProductID)
 			}
-			if o.ModUnix != 0 {
-				co.ModTime = time.Unix(o.ModUnix, 0)
-			}
+			co.ModTime = o.instant()
 			b.Objects = append(b.Objects, co)
 		}
 		e.h = &caldav.Handler{Backend: b, Prefix: d.Prefix}
@@ -610,13 +766,11 @@ func (e *env) buildDav() error {
 			b.Books = append(b.Books, carddav.AddressBook{Path: c.Path, Name: c.Name, Description: c.Desc, MaxResourceSize: c.MaxSize})
 		}
 		for i, o := range d.Objs {
-			ao := carddav.AddressObject{Path: o.Path, ETag: o.ETag, ContentLength: o.Len, Card: makeCard(fmt.Sprintf("uid-%d", i))}
+			ao := carddav.AddressObject{Path: o.Path, ETag: o.ETag, ContentLength: o.Len, Card: makeCard(objUID(i))}
 			if o.Ctl != 0 {
 				ao.Card.SetValue(vcard.FieldNote, ctlText(o.Ctl))
 			}
-			if o.ModUnix != 0 {
-				ao.ModTime = time.Unix(o.ModUnix, 0)
-			}
+			ao.ModTime = o.instant()
 			b.Objects = append(b.Objects, ao)
 		}
 		e.h = &carddav.Handler{Backend: b, Prefix: d.Prefix}
